@@ -103,10 +103,10 @@ Inductive tperm : ptree -> ptree -> Prop :=
 | tp_dir n d ents ents1 ents' :
     Forall2 tperm ents ents1 -> Permutation ents1 ents' -> tperm (PDir n d ents) (PDir n d ents').
 
-(* no namespace directive, generators only create *)
+(* no namespace directive, no replicas / images entries, generators only create *)
 Inductive perm_ok : ptree -> Prop :=
 | po_file docs : perm_ok (PFile docs)
-| po_dir n d ents : pd_ns d = "" -> gens_create d -> Forall perm_ok ents -> perm_ok (PDir n d ents).
+| po_dir n d ents : pd_ns d = "" -> pd_replicas d = [] -> pd_images d = [] -> gens_create d -> Forall perm_ok ents -> perm_ok (PDir n d ents).
 
 Section Perm.
   Variable nonstr : string -> bool.
@@ -226,10 +226,10 @@ Section Perm.
   Qed.
 
   Lemma run_kind_perm k d m m' x :
-    pd_ns d = "" -> Permutation m m' -> run_kind nonstr k d m = Ok x ->
+    pd_ns d = "" /\ pd_replicas d = [] /\ pd_images d = [] -> Permutation m m' -> run_kind nonstr k d m = Ok x ->
     exists x', run_kind nonstr k d m' = Ok x' /\ Permutation x x'.
   Proof.
-    intros Hns HP. unfold run_kind. rewrite Hns.
+    intros (Hns & Hrp & Him) HP. unfold run_kind. rewrite Hns, Hrp, Him.
     destruct (String.eqb k "NamespaceTransformer"); [cbn; intros H; inv H; eauto|].
     destruct (String.eqb k "PrefixTransformer").
     { unfold prefix_transform. destruct (String.eqb (pd_prefix d) ""); [intros H; inv H; eauto|]. apply mapM_perm; exact HP. }
@@ -239,11 +239,12 @@ Section Perm.
     { destruct (Labels.label_transformers LabelsDefaults.default_tc (label_dirs d)) as [lts| | |]; cbn [bind]; try discriminate.
       apply label_transforms_perm; exact HP. }
     destruct (String.eqb k "AnnotationsTransformer"); [apply label_transform_perm; exact HP|].
-    intros H; inv H; eauto.
+    destruct (String.eqb k "ReplicaCountTransformer"); [cbn; intros H; inv H; eauto|].
+    destruct (String.eqb k "ImageTagTransformer"); cbn; intros H; inv H; eauto.
   Qed.
 
   Lemma run_order_perm ks d : forall m m' x,
-    pd_ns d = "" -> Permutation m m' -> run_order nonstr ks d m = Ok x ->
+    pd_ns d = "" /\ pd_replicas d = [] /\ pd_images d = [] -> Permutation m m' -> run_order nonstr ks d m = Ok x ->
     exists x', run_order nonstr ks d m' = Ok x' /\ Permutation x x'.
   Proof.
     induction ks as [|k t IH]; intros m m' x Hns HP H; cbn [run_order] in *; [inv H; eauto|].
@@ -253,7 +254,7 @@ Section Perm.
   Qed.
 
   Lemma run_transformers_perm d m m' x :
-    pd_ns d = "" -> Permutation m m' -> run_transformers nonstr d m = Ok x ->
+    pd_ns d = "" /\ pd_replicas d = [] /\ pd_images d = [] -> Permutation m m' -> run_transformers nonstr d m = Ok x ->
     exists x', run_transformers nonstr d m' = Ok x' /\ Permutation x x'.
   Proof.
     intros Hns HP. unfold run_transformers.
@@ -273,7 +274,7 @@ Section Perm.
   Proof.
     induction t as [docs|n d ents IH] using ptree_ind'; intros t' m HT Hok H.
     - inv HT. eauto.
-    - inversion HT as [|? ? ? ents1 ents' HF HP]; subst. inversion Hok as [|? ? ? Hns Hg He]; subst.
+    - inversion HT as [|? ? ? ents1 ents' HF HP]; subst. inversion Hok as [|? ? ? Hns0 Hrp Him Hg He]; subst. assert (Hns := conj Hns0 (conj Hrp Him)).
       rewrite accumulate_dir in *.
       assert (HL : List.length ents = List.length ents').
       { rewrite <- (Permutation_length HP). clear -HF. induction HF; cbn; congruence. }
